@@ -1,9 +1,9 @@
 (* CoinSel.v — executable model of pycardano/coinselection.py
-     LargestFirstSelector.select                       (coinselection.py:78-131)
-     RandomImproveMultiAsset.select                    (coinselection.py:267-338)
-       _get_next_random / _random_select_subset        (coinselection.py:155-181)
-       _split_by_asset / _get_single_asset_val         (coinselection.py:183-210)
-       _find_diff_by_former / _improve                 (coinselection.py:212-265)
+     LargestFirstSelector.select                       (coinselection.py:78-135)
+     RandomImproveMultiAsset.select                    (coinselection.py:271-346)
+       _get_next_random / _random_select_subset        (coinselection.py:159-185)
+       _split_by_asset / _get_single_asset_val         (coinselection.py:187-214)
+       _find_diff_by_former / _improve                 (coinselection.py:216-269)
    clause by clause (tree after the fix commits d6548f3, eaa488b, 6b99030, 797f298).
 
    What is data here and code there:
@@ -96,7 +96,7 @@ Fixpoint lf_loop (avail : list utxo) (req : value) (lim : option Z) (sel : list 
            else lf_loop rest req lim sel' amt'
        end.
 
-(* lines 87-106 for an already summed request: (selected, selected_amount, available reversed) *)
+(* sort + while loop of select for an already summed request: (selected, selected_amount, available reversed) *)
 Definition lf_core (utxos : list utxo) (req : value) (lim : option Z) : res (list utxo * value * list utxo) :=
   lf_loop (rev (sort_asc utxos)) req lim [] v_zero.
 
